@@ -260,8 +260,13 @@ func cmdVerify(args []string) {
 			}
 			pats := append([]AliasPattern{nil}, fc.Alias...)
 			for _, ap := range pats {
-				r := en.VerifyFunction(fn, fc, pc, ap)
-				results = append(results, r)
+				if len(fc.Cases) == 0 {
+					results = append(results, en.VerifyFunction(fn, fc, pc, ap, -1))
+					continue
+				}
+				for ci := range fc.Cases {
+					results = append(results, en.VerifyFunction(fn, fc, pc, ap, ci))
+				}
 			}
 		}
 	}
